@@ -95,6 +95,8 @@ class C02(Property):
                                      "#", "#102030", "#ffffff", "#000000"])
             d["bg"] = rng.choice([None, (0, 0, 0), (255, 255, 255), (16, 32, 48)])
             d["kitty_term"] = rng.random() < 0.4
+            # environment variables a terminal's child inherits (possibly from ANOTHER terminal): they must not decide
+            d["kitty_env"] = rng.random() < 0.3
             d["split"] = rng.random() < 0.3
             d["prerender"] = rng.random() < 0.3
             if rng.random() < 0.25:
@@ -171,6 +173,17 @@ class C02(Property):
         if op == "thr":
             # what the library computes: `alpha = round(alpha * 255)` (common.py, _get_render_data)
             return f"ok {round(d['thr_alpha'] * 255)}"
+        saved_env = {k: os.environ.get(k) for k in ("KITTY_WINDOW_ID", "KITTY_PID", "TERM_PROGRAM")}
+        if d.get("kitty_env"):
+            os.environ.update(KITTY_WINDOW_ID="7", KITTY_PID="4242")
+            os.environ.pop("TERM_PROGRAM", None)
+        try:
+            return self._impl_render(case, d, op)
+        finally:
+            for k, v in saved_env.items():
+                os.environ.pop(k, None) if v is None else os.environ.__setitem__(k, v)
+
+    def _impl_render(self, case, d, op):
         img, im = self._image(d)
         cap = {}
         orig = im._get_render_data
